@@ -82,7 +82,7 @@ class MatrixTheory:
             return VInt(1 if base.flat else (2 if base.depth is None else 3))
         if attr == 'dtype':
             return VFunc('matdtype', et)
-        if attr in ('flatten', 'ravel', 'astype', 'reshape', 'copy'):
+        if attr in ('flatten', 'ravel', 'astype', 'reshape', 'copy', 'max', 'min'):
             return VFunc('matmethod', attr, self_val=base)
         raise Unsupported('attribute %s of a matrix' % attr)
 
@@ -94,10 +94,18 @@ class MatrixTheory:
         if name == 'copy':
             return self.new_mat(st, et, n, w, data=data, flat=m.flat, depth=m.depth)
         if name == 'astype':
+            if et == 'real':
+                self.used('astype(float dtype) on a real matrix keeps the (real) values (A-REAL: floats as reals, no rounding)')
+                return self.new_mat(st, et, n, w, data=data, flat=m.flat, depth=m.depth)
             if et != 'int':
-                raise Unsupported('astype on a non-integer matrix')
+                raise Unsupported('astype on a non-numeric matrix')
             self.used('astype(integer dtype) keeps integer values (A-NOOVF)')
             return self.new_mat(st, et, n, w, data=data, flat=m.flat)
+        if name in ('max', 'min'):
+            ax = kw.get('axis', args[0] if args else None)
+            if m.flat or m.depth is not None or et not in ('int', 'real') or ax is None or const_int(as_int(ax)) != 0:
+                raise Unsupported('matrix reduction other than M.max(axis=0) / M.min(axis=0)')
+            return self.mat_colreduce(m, name == 'max', st, node)
         if name == 'reshape':
             shp = args[0] if len(args) == 1 else VTuple(list(args))
             if not (isinstance(shp, VTuple) and len(shp.items) == 2) or m.depth is not None:
@@ -207,6 +215,10 @@ class MatrixTheory:
         if m.flat:
             raise Unsupported('indexing a flattened matrix')
         elts = list(sl_node.elts) if isinstance(sl_node, ast.Tuple) else None
+        if elts and len(elts) == 2 and (self._full(elts[0]) or self._is_ellipsis(elts[0])) and not isinstance(elts[1], ast.Slice) and not self._is_ellipsis(elts[1]):
+            v_ = self.ev(elts[1], st)
+            if isinstance(v_, VList):
+                return self.mat_select_cols(m, v_, st, node)
         if elts and self._is_ellipsis(elts[-1]):
             elts = elts[:-1]
         if not elts or len(elts) != 2 or not self._full(elts[0]) or not isinstance(elts[1], ast.Slice) or elts[1].step is not None:
@@ -244,6 +256,60 @@ class MatrixTheory:
         _, _, _, rd = self.mcell(r, st)
         st.assume(z3.ForAll([i], z3.Implies(z3.And(i >= 0, i < c.length), rd[i] == data[z3.If(X[i] < 0, X[i] + n, X[i])])))
         return r
+
+    def mat_colreduce(self, m, is_max, st, node):
+        """M.max(axis=0) / M.min(axis=0): per column, a value attained in that column that bounds the whole column"""
+        et, n, w, data = self.mcell(m, st)
+        self.oblige(st, 'pre', 'reduction-over-at-least-one-row', n >= 1, node, raises='ValueError')
+        self.used('M.max(axis=0) / M.min(axis=0) (column extremes)')
+        r, leaves = self.new_arr(st, et, w, 'colmax' if is_max else 'colmin')
+        R = leaves[0]
+        at = z3.Function(fresh_name('ext_at'), z3.IntSort(), z3.IntSort())
+        s, c = z3.Int(fresh_name('s')), z3.Int(fresh_name('c'))
+        st.assume(z3.ForAll([s, c], z3.Implies(self._rng(s, c, n, w), (R[c] >= data[s][c]) if is_max else (R[c] <= data[s][c]))))
+        st.assume(z3.ForAll([c], z3.Implies(z3.And(c >= 0, c < w), z3.And(at(c) >= 0, at(c) < n, R[c] == data[at(c)][c]))))
+        return r
+
+    def mat_abs(self, m, st, node):
+        et, n, w, data = self.mcell(m, st)
+        if m.flat or m.depth is not None or et not in ('int', 'real'):
+            return None
+        self.used('np.abs on a matrix (elementwise)')
+        r = self.new_mat(st, et, n, w, 'abs')
+        rd = self.mcell(r, st)[3]
+        s, c = z3.Int(fresh_name('s')), z3.Int(fresh_name('c'))
+        st.assume(z3.ForAll([s, c], z3.Implies(self._rng(s, c, n, w), rd[s][c] == z3.If(data[s][c] >= 0, data[s][c], -data[s][c]))))
+        return r
+
+    def mat_select_cols(self, m, sel_v, st, node):
+        """M[:, mask] (boolean vector: order-preserving column selection, same enumeration as x[mask]) / M[:, idx] (column gather)"""
+        et, n, w, data = self.mcell(m, st)
+        if m.flat or m.depth is not None:
+            raise Unsupported('column selection on a flattened / rank-3 array')
+        ci = st.heap.lists[sel_v.ref]
+        s, j = z3.Int(fresh_name('s')), z3.Int(fresh_name('j'))
+        if ci.etype == 'bool':
+            self.used('M[:, mask]: order-preserving column selection (same ghost enumeration as x[mask])')
+            self.oblige(st, 'index', 'mask-same-length', ci.length == w, node, raises='IndexError')
+            M_ = ci.leaves[0]
+            cnt, sel, inv, ax = self.mask_maps(M_, w, lambda i_: M_[i_], st)
+            if not any(t is ax for t in st.pc):
+                st.pc.append(ax)
+            r = self.new_mat(st, et, n, cnt, 'cols')
+            rd = self.mcell(r, st)[3]
+            st.assume(z3.ForAll([s, j], z3.Implies(self._rng(s, j, n, cnt), rd[s][j] == data[s][sel(j)])))
+            return r
+        if ci.etype == 'int' or ci.etype is None:
+            self.used('M[:, idx]: column gather')
+            if ci.etype is None:
+                return self.new_mat(st, et, n, I(0), 'cols')
+            X = ci.leaves[0]
+            self.oblige(st, 'index', 'column-indices-in-range', z3.ForAll([j], z3.Implies(z3.And(j >= 0, j < ci.length), z3.And(X[j] >= 0, X[j] < w))), node, raises='IndexError')
+            r = self.new_mat(st, et, n, ci.length, 'cols')
+            rd = self.mcell(r, st)[3]
+            st.assume(z3.ForAll([s, j], z3.Implies(self._rng(s, j, n, ci.length), rd[s][j] == data[s][X[j]])))
+            return r
+        raise Unsupported('column selection by %r' % (ci.etype,))
 
     def mat_set_rows(self, m, idx, val, st, tgt):
         """M[idx, ...] = V with idx a full slice or an index array: whole rows are replaced"""
